@@ -390,6 +390,16 @@ void QXmppIncomingClient::handleStanza(const QDomElement &nodeRecv)
             }
         }
     } else if (ns == ns_client) {
+        // resource binding and stanzas are only allowed after successful authentication
+        if (d->jid.isEmpty()) {
+            warning(u"Received a stanza before authentication from %1"_s.arg(d->origin()));
+            sendData(QByteArrayLiteral("<stream:error>"
+                                       "<not-authorized xmlns=\"urn:ietf:params:xml:ns:xmpp-streams\"/>"
+                                       "</stream:error>"));
+            disconnectFromHost();
+            return;
+        }
+
         if (nodeRecv.tagName() == u"iq") {
             const QString type = nodeRecv.attribute(u"type"_s);
             const auto id = nodeRecv.attribute(u"id"_s);
